@@ -82,7 +82,7 @@ func headerValueRegexFilterFromJSON(b []byte) (*parse.Result, error) {
 
 // ModifyRequest runs reqmod iff the value of header matches regex.
 func (f *ValueRegexFilter) ModifyRequest(req *http.Request) error {
-	hvalue := proxyutil.RequestHeader(req).Get(f.header)
+	hvalue := firstValue(req, f.header)
 	if hvalue == "" {
 		return nil
 	}
@@ -96,7 +96,7 @@ func (f *ValueRegexFilter) ModifyRequest(req *http.Request) error {
 
 // ModifyResponse runs resmod iff the value of request header matches regex.
 func (f *ValueRegexFilter) ModifyResponse(res *http.Response) error {
-	hvalue := proxyutil.RequestHeader(res.Request).Get(f.header)
+	hvalue := firstValue(res.Request, f.header)
 	if hvalue == "" {
 		return nil
 	}
@@ -106,6 +106,19 @@ func (f *ValueRegexFilter) ModifyResponse(res *http.Response) error {
 	}
 
 	return nil
+}
+
+// firstValue returns the first value of header name in req, or "" when req
+// does not carry the header. It is looked up with All, as header.Filter does:
+// Get reports "0" for the Content-Length of a request without a Content-Length
+// header (the ContentLength field is 0 then).
+func firstValue(req *http.Request, name string) string {
+	vs, ok := proxyutil.RequestHeader(req).All(name)
+	if !ok || len(vs) == 0 {
+		return ""
+	}
+
+	return vs[0]
 }
 
 // SetRequestModifier sets the request modifier of HeaderValueRegexFilter.
